@@ -82,3 +82,20 @@ theorem alpha_drift_to_base (h : AlphaHyp p) (hb : p.aBase = 1) (f : Ind d)
 
 end
 end Boario
+
+namespace Boario
+/-- the hypothesis `aTau ≤ 1` of `alpha_bounds` (characteristic time of at least one step) cannot be dropped: with
+    a step five times longer than `alpha_tau`, full scarcity takes the factor from 1 to 9/4, above its maximum 5/4.
+    The two clauses of the property ("never above the maximum", "rises by (max − current) × scarcity / tau") are
+    compatible only for rates ≤ 1. -/
+theorem alpha_bound_needs_rate_le_one :
+    ∃ (p : Params ⟨1, 1, 1⟩) (alpha dTot prod : Ind ⟨1, 1, 1⟩ → Rat) (f : Ind ⟨1, 1, 1⟩),
+      1 ≤ p.aMax ∧ p.aBase ≤ p.aMax ∧ 0 ≤ p.aTau ∧ 1 < p.aTau ∧ alpha f = p.aBase ∧
+      p.aMax < overprod p alpha dTot prod f := by
+  refine ⟨{ x0 := fun _ => 1, Z0 := fun _ _ => 0, Y0 := fun _ _ => 1, a := fun _ _ => 0, thr := fun _ _ => false,
+            invDur := fun _ => none, psi := 1, rest := fun _ => 1, aBase := 1, aMax := 5 / 4, aTau := 5, alt := false,
+            Zshare := fun _ _ => 0, K := fun _ => 1 },
+          fun _ => 1, fun _ => 1, fun _ => 0, (0, 0), ?_⟩
+  norm_num [overprod, alphaChg, scarcity]
+
+end Boario
